@@ -1229,6 +1229,13 @@ func (w *World) adminOp(c *simClient, it *Item) {
 	case "emu-close":
 		inst := w.emus[i]
 		f = func() { inst.eng.Close(); inst.closed = true; inst.closedStep = w.step }
+	case "emu-sethook":
+		// the public SetHook API, called by the test that owns the emulator while
+		// its clients are active; the hook passes every command through
+		inst := w.emus[i]
+		f = func() {
+			inst.eng.SetHook(func(cmd string, args map[string]any) (bool, any, error) { return false, nil, nil })
+		}
 	default:
 		panic("unknown admin op " + it.Op)
 	}
